@@ -388,7 +388,23 @@ pub fn fair_suffix(sim: &mut Sim) {
         return;
     }
     if target == 0 {
-        sim.with_mon(|m, _| m.note("progress: the converged leader refused six fresh proposals"));
+        // a leader that removed itself from the configuration drops proposals by design (the
+        // application is expected to stop a removed node); any other converged leader that keeps
+        // refusing proposals for sixty fault-free rounds has wedged
+        let (still_leader, tracked, detail) = match sim.nodes[l].driver.as_ref() {
+            Some(d) => {
+                let r = &d.node.raft;
+                (r.state == StateRole::Leader, r.prs().get(r.id).is_some(),
+                 format!("uncommitted_size {} last_index {} committed {} transferee {:?}", r.uncommitted_size(), r.raft_log.last_index(), r.raft_log.committed, r.lead_transferee))
+            }
+            None => (false, false, String::new()),
+        };
+        if still_leader && tracked {
+            let id = sim.nodes[l].id;
+            sim.with_mon(|m, _| m.fail("stuck-proposals-refused", format!("the converged leader {} refused six fresh proposals over sixty fault-free rounds ({})", id, detail)));
+        } else {
+            sim.with_mon(|m, _| m.note("progress: the converged leader refused six fresh proposals (it removed itself, or lost leadership)"));
+        }
         return;
     }
     let mut ok = false;
